@@ -41,6 +41,7 @@ static W vm_native_alloca(int site) { /* stack slots take object ids from the to
 #define VM_ALLOCA_END(site) do { } while (0)
 static void vm_native_free(W a) { if (!a) return; W o = (a >> 20) - 1; if ((a & 0xfffffUL) || o >= VM_MAXOBJ || !vm_mem[o] || !vm_livef[o]) { printf("ASSERTION FAILED: memory safety: bad or double free\n"); vm_failed = 1; return; } vm_livef[o] = 0; }
 #define VM_FREE(s, a) vm_native_free(a)
+static W vm_popcount(W x) { x = x - ((x >> 1) & 0x5555555555555555UL); x = (x & 0x3333333333333333UL) + ((x >> 2) & 0x3333333333333333UL); x = (x + (x >> 4)) & 0x0f0f0f0f0f0f0f0fUL; return (x * 0x0101010101010101UL) >> 56; }
 static void vm_assume(W c) { if (!c) { printf("assumption violated\n"); exit(6); } }
 static W vm_nondet(void) { return 0; }
 static W vm_self(void) { return vm_tid; }
